@@ -27,6 +27,8 @@ pub enum Ty {
     Two(Box<Ty>, Box<Ty>),
     /// const-generic user type in a module named like a std one
     StdLike(u8),
+    /// `depth` nested std generics (Vec / Option / Box by the bits of `pattern`) around a String
+    Chain(u8, u16),
 }
 
 const PRIMS: [&str; 16] = ["u8", "u16", "u32", "u64", "u128", "usize", "i8", "i16", "i32", "i64", "i128", "isize", "f32", "f64", "char", "bool"];
@@ -54,11 +56,25 @@ impl Ty {
             Ty::Deep(t) => format!("vtypes::types::inner::deeper::Deep<{}>", t.short()),
             Ty::Two(a, b) => format!("vtypes::types::Two<{}, {}>", a.short(), b.short()),
             Ty::StdLike(n) => format!("vtypes::string::String<{}>", 1 + n % 16),
+            Ty::Chain(depth, pattern) => {
+                let mut s = "String".to_string();
+                for k in 0..(*depth as usize) {
+                    let w = match (pattern >> (2 * (k % 8))) & 3 {
+                        0 => "Vec",
+                        1 => "Option",
+                        2 => "Box",
+                        _ => "Vec",
+                    };
+                    s = format!("{}<{}>", w, s);
+                }
+                s
+            }
         }
     }
     pub fn depth(&self) -> usize {
         match self {
             Ty::Prim(_) | Ty::Str | Ty::BoxStr | Ty::Plain | Ty::StdLike(_) => 1,
+            Ty::Chain(d, _) => 1 + *d as usize,
             Ty::Boxed(t) | Ty::Vector(t) | Ty::Opt(t) | Ty::Array(t, _) | Ty::BoxSlice(t) | Ty::Gen(t) | Ty::Deep(t) => 1 + t.depth(),
             Ty::Res(a, b) | Ty::Two(a, b) => 1 + a.depth().max(b.depth()),
             Ty::Tuple(ts) => 1 + ts.iter().map(|t| t.depth()).max().unwrap_or(0),
@@ -70,6 +86,12 @@ impl Ty {
             Ty::Prim(_) => {}
             Ty::Str => {
                 std_used.insert("String");
+            }
+            Ty::Chain(..) => {
+                std_used.insert("String");
+                std_used.insert("Vec");
+                std_used.insert("Option");
+                kinds.insert("deep_generic_chain");
             }
             Ty::BoxStr => {
                 std_used.insert("Box");
@@ -137,7 +159,7 @@ impl Ty {
 }
 
 fn ty_strategy() -> impl Strategy<Value = Ty> {
-    let leaf = prop_oneof![12 => (0u8..16).prop_map(Ty::Prim), 4 => Just(Ty::Str), 2 => Just(Ty::BoxStr), 2 => Just(Ty::Plain), 1 => (0u8..16).prop_map(Ty::StdLike)];
+    let leaf = prop_oneof![12 => (0u8..16).prop_map(Ty::Prim), 4 => Just(Ty::Str), 2 => Just(Ty::BoxStr), 2 => Just(Ty::Plain), 1 => (0u8..16).prop_map(Ty::StdLike), 1 => (5u8..12, any::<u16>()).prop_map(|(d, p)| Ty::Chain(d, p))];
     leaf.prop_recursive(7, 64, 5, |inner| {
         prop_oneof![
             2 => inner.clone().prop_map(|t| Ty::Boxed(Box::new(t))),
